@@ -95,3 +95,7 @@ Proof.
   destruct H as (H1 & H2 & H3 & H4 & H5 & _). cbn [conv M.fixed M.var M.ar M.ac M.sc] in *.
   repeat split; try assumption. destruct (s_agent_location (fst (step T (reward_src dense) s a))), (s_agent_location s). cbn [fst snd] in *. congruence.
 Qed.
+
+(* C03 on the translated step: never FIRST, MID with discount 1 or LAST with discount 0 (no truncation) -- any state, any action *)
+Lemma src_step_protocol T dense s a : step_ok 1 false (snd (step T (reward_src dense) s a)) = true.
+Proof. destruct (step_src T dense s a) as [_ E]. rewrite E. apply step_protocol. Qed.
